@@ -210,8 +210,11 @@ impl<'a> Tokenizer<'a> {
     }
 
     fn function_or_reference_token(&self, atom: &'a str, start: usize) -> Result<Token<'a>> {
-        let peek = self.peek()?;
-        if peek.is_open_paren() {
+        // a function name is a name followed by '(' (after optional whitespace); look
+        // at the characters instead of tokenizing ahead, which recursed once per name
+        // in a run of names
+        let mut rest = self.chars.clone();
+        if let Some((_, '(')) = rest.find(|(_, ch)| !is_whitespace_char(*ch)) {
             return Ok(Token::Function(atom, Span(start, self.current())));
         }
         Ok(Token::Reference(atom, Span(start, self.current())))
